@@ -174,6 +174,7 @@ def _count(files, out):
     levels = collections.Counter()
     per_group = collections.defaultdict(collections.Counter)
     ok_to_err = collections.Counter()
+    more_err = collections.Counter()
     nf = collections.Counter()
     jobs = {}
     inputs = set()
@@ -188,6 +189,8 @@ def _count(files, out):
                 per_group[g][o["oc"]] += 1
                 if a["base"][0] == "Ok" and o["oc"] == "Err":
                     ok_to_err[g] += 1
+                if a["base"][0] != "" and o["oc"] in ("Ok", "Err") and o["err"] > a["base"][2]:
+                    more_err[g] += 1
                 if o.get("flaky"):
                     flaky += 1
                 noticed = a["base"][0] != "" and [o["oc"], o["ok"], o["err"]] != a["base"]
@@ -216,6 +219,7 @@ def _count(files, out):
         "faults_per_level": dict(levels), "sequences_per_length": {str(k): v for k, v in nf.items()},
         "outcomes_per_group": {g: dict(c) for g, c in per_group.items()},
         "ok_to_err_per_group": dict(ok_to_err),
+        "more_failing_calls_than_on_intact_per_group": dict(more_err),
         "flaky_events": flaky,
         "samples": samples,
     })
@@ -359,7 +363,7 @@ def run(ctx):
         if all(v.key in known for v in violations):
             raise vlib.ToolError(vac)
         ctx.note(vac + " (reported violations take precedence)")
-    silent = [g for g in counters["outcomes_per_group"] if not counters["ok_to_err_per_group"].get(g)]
+    silent = [g for g in counters["outcomes_per_group"] if not counters["more_failing_calls_than_on_intact_per_group"].get(g)]
     coverage = {
         "evaluations": n_events,
         "distinct_nontrivial": counters["fault_sequences_noticed"],
@@ -382,7 +386,7 @@ def run(ctx):
         "harness_counters": rep,
         "non_conforming_events": len(mism) - len(seen),
         "distinct_violation_keys": len(by_key),
-        "groups_where_no_fault_turned_ok_into_err": sorted(silent),
+        "groups_where_no_fault_made_more_calls_fail": sorted(silent),
         "binding_selfcheck": "%d corrupted copies of recorded events rejected, each for its own clause; " % len(planted) +
                              "value classes, fault application and view cutting replayed against MC_FaultModel with 0 mismatches",
         "exhaustive": False,
@@ -391,7 +395,8 @@ def run(ctx):
                        "directory / header fields and sampled by seed elsewhere",
     }
     for k in ("fault_sequences_run", "inputs", "faults_per_role", "faults_per_value_class", "faults_per_kind", "faults_per_level",
-              "sequences_per_length", "outcomes_per_group", "ok_to_err_per_group", "flaky_events"):
+              "sequences_per_length", "outcomes_per_group", "ok_to_err_per_group", "more_failing_calls_than_on_intact_per_group",
+              "flaky_events"):
         coverage[k] = counters[k]
     vlib.finish(ctx, LEVEL, coverage, violations, ASSUMPTIONS)
 
